@@ -124,7 +124,7 @@ impl TransportVisitor for V {
                 // Post-initialisation script.
                 let served_before = co.borrow().served.len();
                 let cfg_log_before = w.dev.borrow().log.len();
-                let r = crate::util::catch(|| post_init(&mut d, accepted, &mut viols));
+                let r = crate::util::catch(|| post_init(&mut d, accepted, &mut viols, &co, kind));
                 if let Err(p) = r {
                     push(&mut viols, "post-init-panic", format!("{} on {}: {}", kind.name(), w.tkind.name(), p));
                 }
@@ -160,7 +160,7 @@ impl TransportVisitor for V {
     }
 }
 
-fn post_init<T: Transport>(d: &mut AnyDriver<T>, accepted: u64, v: &mut Vec<(String, String)>) {
+fn post_init<T: Transport>(d: &mut AnyDriver<T>, accepted: u64, v: &mut Vec<(String, String)>, co: &crate::cosim::CoRc, kind: Kind) {
     match d {
         AnyDriver::Blk(b) => {
             let _ = b.flush();
@@ -173,6 +173,41 @@ fn post_init<T: Transport>(d: &mut AnyDriver<T>, accepted: u64, v: &mut Vec<(Str
             // no longer 0): without EVENT_IDX it may only touch the flags word.
             b.disable_interrupts();
             b.enable_interrupts();
+            // A nearly full queue: the device holds non-blocking requests (3 buffers each on the
+            // 16-descriptor queue) until the driver refuses one. Whatever fits, no chain may use
+            // an indirect table unless INDIRECT_DESC was negotiated.
+            co.borrow_mut().responder = Box::new(|_, _, _| crate::cosim::Action::Hold);
+            let mut pool: Vec<(Box<virtio_drivers::device::blk::BlkReq>, Box<[u8]>, Box<virtio_drivers::device::blk::BlkResp>)> = vec![];
+            for _ in 0..17 {
+                pool.push((Box::default(), vec![0u8; 512].into_boxed_slice(), Box::default()));
+            }
+            let mut accepted_nb = 0;
+            for (req, data, resp) in pool.iter_mut() {
+                // SAFETY: the buffers live in `pool` until the driver has been dropped by the caller
+                // (the pool is leaked below).
+                match unsafe { b.read_blocks_nb(7, req, data, resp) } {
+                    Ok(_) => accepted_nb += 1,
+                    Err(_) => break,
+                }
+            }
+            {
+                let mut c = co.borrow_mut();
+                c.service(0);
+                let held: Vec<crate::ring::Chain> = c.held.get(&0).cloned().unwrap_or_default();
+                for ch in &held {
+                    if ch.indirect.is_some() && accepted & F_INDIRECT == 0 {
+                        push(v, "indirect-without-negotiation", format!("blk: with {} requests outstanding a chain uses an indirect table although INDIRECT_DESC was not negotiated", accepted_nb));
+                    }
+                }
+                for e in c.errors.clone() {
+                    if e.contains("INDIRECT") {
+                        push(v, "indirect-without-negotiation", format!("blk: nearly full queue: {}", e));
+                    }
+                }
+            }
+            co.borrow_mut().responder = crate::cosim::honest_responder(kind);
+            // The requests stay outstanding; their buffers must outlive the driver.
+            std::mem::forget(pool);
         }
         AnyDriver::Console(c) => {
             let s = c.size();
